@@ -31,7 +31,7 @@ var (
 	keyPool = map[string][]crypto.Signer{}
 )
 
-// Key returns a key of the given kind ("p256","p384","p521","rsa2048","rsa1024","rsa3072","ed25519").
+// Key returns a key of the given kind ("p256","p384","p521","rsa2048","rsa1024","rsa3072","rsa4096","ed25519").
 // RSA keys are pooled (generation is slow); idx selects a pool slot.
 func Key(kind string, idx int) crypto.Signer {
 	keyMu.Lock()
@@ -52,6 +52,8 @@ func Key(kind string, idx int) crypto.Signer {
 			k, err = rsa.GenerateKey(rand.Reader, 2048)
 		case "rsa3072":
 			k, err = rsa.GenerateKey(rand.Reader, 3072)
+		case "rsa4096":
+			k, err = rsa.GenerateKey(rand.Reader, 4096)
 		case "ed25519":
 			_, priv, e := ed25519.GenerateKey(rand.Reader)
 			k, err = priv, e
@@ -147,7 +149,7 @@ func Issue(o Opts, parent *Entity) *Entity {
 	if err != nil {
 		panic(err)
 	}
-	if fixed, ok := WithRFCValidity(der, t.NotBefore, t.NotAfter); ok {
+	if fixed, ok := WithRFCValidity(der, t.NotBefore, t.NotAfter, t.SerialNumber); ok {
 		der = fixed // the identity unless the fork's time encoder departs from RFC 5280 (see rfcvalidity.go)
 	}
 	c, err := x509.ParseCertificate(der)
